@@ -33,7 +33,8 @@ FAULTS = [
     _f("def [a_q, b_q] = 5", "def [ 5"), _f("x_undef_q += 1", "x_undef_q +="), _f("x_undef_q = 1", "x_undef_q ="),
     _f("require NoSuchModuleZq", "require NoSuchModuleZq"), _f("[1 for x_q in 5]", "[ 1 5"), _f("<<1 for x_q in 5>>", "<< 1 5"),
     _f("<<<1 => 2 for x_q in 5>>>", "<<< 1 5"), _f("1 is undefined_zz_q", "1 is undefined_zz_q"), _f("<* a = 1 *> -> b()", "<* -> b ("),
-    _f("[1] !> undefined_zz_q()", "!> undefined_zz_q ("), _f("[a_u, b_u] = [1, 2]", "[ a_u"), _f("<<<1 => 2>>>[5]", "<<< [ 5"),
+    _f("[1] !> undefined_zz_q()", "[ undefined_zz_q ("), _f("[3] !> length(2, 3)", "[ length ("), _f("7 !> undefined_zz_q(1) !> string()", "7 undefined_zz_q ("),
+    _f("'a' !> string() !> undefined_zz_q()", "a undefined_zz_q ("), _f("[a_u, b_u] = [1, 2]", "[ a_u"), _f("<<<1 => 2>>>[5]", "<<< [ 5"),
     _f("'abc'[10]", "abc [ 10"), _f("do error 1 finally undefined_zz_q end", "undefined_zz_q"), _f("date('x')", "date ( x"),
     _f("[1, undefined_zz_q]", "undefined_zz_q"), _f("<<1, undefined_zz_q>>", "undefined_zz_q"), _f("<<<1 => undefined_zz_q>>>", "undefined_zz_q"),
     _f("(fn(a) a + undefined_zz_q)(1)", "undefined_zz_q"), _f("length(1, 2, 3)", "length ("), _f("length(zz = 1)", "length ("),
